@@ -110,6 +110,13 @@ async def sweep_method(loop, net, mname, variant):
                 if not task.done():
                     tr.feed(simnet.plain_msg(m))
                     await simnet.drain(loop)
+            # an unanswered request runs into its own time-out (what is sent on that path counts too); variant 1 is cancelled instead
+            if not task.done() and variant != 1:
+                for _ in range(12):
+                    nt = loop.next_timer()
+                    if task.done() or nt is None:
+                        break
+                    await simnet.advance(loop, to=nt + simnet.CLOCK_BASE)
             if not task.done():
                 task.cancel()
                 await simnet.drain(loop)
@@ -326,7 +333,7 @@ def run(rep, tier, seed):
                                   {"kind": "impl-trace", "entry": mname, "variant": variant, "subscribed": sorted(subscribed)})
             if static is not None:
                 st_s, st_t = static.get(f"APIClient.{mname}", (set(), set()))
-                extra_s = sent - st_s - {"DisconnectRequest"}
+                extra_s = sent - st_s - {"DisconnectRequest", "PingRequest"}      # the sweep's own closing disconnect; keep-alive pings while time passes
                 extra_t = subscribed - st_t
                 if (extra_s or extra_t) and not rep.violations:
                     rep.violations.append((f"C13/translator/clientapi/{mname}",
